@@ -1,32 +1,9 @@
 ------------------------------- MODULE Arith -------------------------------
 (***************************************************************************)
-(* The arithmetic kernel of the staking contract. Exactly one definition   *)
-(* of every formula; every other module, the TLAPS proofs and the Apalache *)
-(* vector checks all refer to these operators.                             *)
-(*                                                                         *)
-(*   helpers.rs  compute_mint_amount / compute_unbond_amount               *)
-(*   execute.rs  receive_rewards (fee), execute_withdraw (payout)          *)
-(*   helpers.rs  get_rates (Decimal::from_ratio, 18 fractional digits)     *)
+(* ArithCore plus the decimal rendering of exchange rates                  *)
+(* (helpers.rs get_rates: Decimal::from_ratio, 18 fractional digits).      *)
 (***************************************************************************)
-EXTENDS Integers, Sequences
-
-\* Uint128::multiply_ratio: floor(a * b / d), d # 0
-MulDivFloor(a, b, d) == (a * b) \div d
-
-\* LST minted for `a` staked tokens when the pool holds N staked tokens and L LST
-MintAmount(N, L, a) == IF N = 0 THEN a ELSE MulDivFloor(L, a, N)
-
-\* staked tokens set aside for a batch of b LST
-UnbondAmount(N, L, b) == IF b = 0 THEN 0 ELSE MulDivFloor(N, b, L)
-
-FeeDenominator == 100000
-FeeOf(rate, a) == MulDivFloor(rate, a, FeeDenominator)
-
-\* pro-rata payout of a received batch
-Payout(recv, own, total) == MulDivFloor(recv, own, total)
-
-\* Rational comparison by cross multiplication: n1/d1 <= n2/d2 (d1, d2 > 0)
-RatLeq(n1, d1, n2, d2) == n1 * d2 <= n2 * d1
+EXTENDS ArithCore, Sequences
 
 (***************************************************************************)
 (* cosmwasm Decimal::from_ratio(num, den).to_string(): floor to 18         *)
